@@ -42,6 +42,9 @@ def finding_for(findings, pid, kind, name=None, key=None, cls=None):
                 return f
             if cls is not None and cls in f.get('classes', []) and not f.get('keys_only'):
                 return f
+            parts = f.get('class_parts')
+            if cls and parts and all(p in parts for p in str(cls).split('+')):
+                return f
             pre = f.get('key_prefixes', [])
             if key is not None and any(key.startswith(x) for x in pre):
                 return f
@@ -225,6 +228,7 @@ def main():
         suffix = '' if (rp.get('reproduced') or api) else ' no-failing-input-found'
         violations.append('VIOLATION property=%s replay=%s obligation=%s%s' % (pid, path, ob['name'], suffix))
     known_bounded = 0
+    n_new_bounded = 0
     kf_seen = {}
     for f in bfail:
         kf = finding_for(findings, pid, 'bounded', key=f.get('key'), cls=f.get('class'))
@@ -232,20 +236,33 @@ def main():
             known_bounded += 1
             kf_seen.setdefault(kf.get('id'), [kf, 0])[1] += 1
             continue
+        n_new_bounded += 1
+        if n_new_bounded > 20:
+            continue
         payload = dict(f)
         payload.update({'property': pid, 'tier_kind': 'bounded',
                         'how_to_run': './check %s --replay <this file>' % pid})
         path = write_replay(pid, 'bounded-' + str(f.get('key'))[:80], payload)
-        if len(violations) < 25:
-            violations.append('VIOLATION property=%s replay=%s contract=%s input=%s' % (
-                pid, path, f.get('contract'), json.dumps(f.get('input'), default=repr)[:200]))
+        violations.append('VIOLATION property=%s replay=%s contract=%s class=%s input=%s' % (
+            pid, path, f.get('contract'), f.get('class'), json.dumps(f.get('input'), default=repr)[:200]))
     for fid, (kf, n) in kf_seen.items():
         known_lines.append('KNOWN-FINDING: property=%s %s [%d bounded case(s)]' % (pid, kf['what'], n))
-    # findings whose failing inputs lie outside this tier's domain are still printed (informational)
-    total_b = (bounded or {}).get('failures_total', len(bfail)) if bounded else 0
-    if bounded and total_b > len(bfail):
-        # the module truncated its list: the unlisted remainder cannot be matched one by one
-        pass
+    if n_new_bounded > 20:
+        violations.append('VIOLATION property=%s replay=%s (and %d more failing bounded cases not listed)' % (
+            pid, 'replays/%s/' % pid, n_new_bounded - 20))
+    # the module may truncate its failure list: every failure CLASS it counted must still be a
+    # known finding, otherwise the unlisted remainder hides a new violation
+    by_class = (bounded or {}).get('failures_by_class') or {}
+    listed_classes = {f.get('class') for f in bfail}
+    for cls, n in sorted(by_class.items()):
+        if not n or cls in listed_classes:
+            continue
+        if finding_for(findings, pid, 'bounded', key=None, cls=cls) is None:
+            path = write_replay(pid, 'bounded-class-' + str(cls), {
+                'property': pid, 'tier_kind': 'bounded', 'class': cls, 'count': n,
+                'minimal_input': ((bounded or {}).get('minimal_input_per_class') or {}).get(cls),
+                'replay': 'import sys; sys.exit(1)', 'key': 'class:' + str(cls)})
+            violations.append('VIOLATION property=%s replay=%s class=%s count=%d (class not in the listed failures)' % (pid, path, cls, n))
 
     checker_error = None
     if bounded is not None and bounded.get('status') != 'ok':
